@@ -939,6 +939,9 @@ def getattr_(I, o, name, node=None):
     if isinstance(o, ExcValue):
         if name == "args":
             return tuple(o.args)
+    if name == "__class__":
+        from .builtins_ import b_type
+        return b_type(I, [o], {})
     from .builtins_ import builtin_method
     bm = builtin_method(I, o, name)
     if bm is not None:
